@@ -912,7 +912,7 @@ func (vm *VM) throw(err *RuntimeError, noTrace bool) error {
 	}
 
 	// firstly check our frame has error handler
-	if vm.curFrame.errHandlers.hasHandler() {
+	if vm.curFrame.errHandlers.hasActiveHandler() {
 		return vm.handleThrownError(vm.curFrame, err)
 	}
 
@@ -923,7 +923,7 @@ func (vm *VM) throw(err *RuntimeError, noTrace bool) error {
 	for index >= 0 {
 		f := &(vm.frames[index])
 		err.addTrace(getFrameSourcePos(f))
-		if f.errHandlers.hasHandler() {
+		if f.errHandlers.hasActiveHandler() {
 			frame = f
 			break
 		}
@@ -954,14 +954,12 @@ func (vm *VM) handleThrownError(frame *frame, err *RuntimeError) error {
 	frame.errHandlers.err = err
 	handler := frame.errHandlers.last()
 
-	// if we have catch>0 goto catch else follow finally (one of them must be set)
+	// if we have catch>0 goto catch else follow finally, one of them is set
+	// because the caller skips the handlers that are already consumed.
 	if handler.catch > 0 {
 		vm.ip = handler.catch - 1
-	} else if handler.finally > 0 {
-		vm.ip = handler.finally - 1
 	} else {
-		frame.errHandlers.pop()
-		return vm.throw(err, false)
+		vm.ip = handler.finally - 1
 	}
 
 	if vm.sp >= handler.sp {
@@ -1459,6 +1457,22 @@ func (t *errHandlers) last() *errHandler {
 
 func (t *errHandlers) hasHandler() bool {
 	return t != nil && len(t.handlers) > 0
+}
+
+// hasActiveHandler removes the handlers on top that are already consumed
+// (neither a catch nor a finally block is left to run) and reports whether a
+// handler remains which can take an error.
+func (t *errHandlers) hasActiveHandler() bool {
+	if t == nil {
+		return false
+	}
+	for n := len(t.handlers); n > 0; n-- {
+		if h := &t.handlers[n-1]; h.catch > 0 || h.finally > 0 {
+			return true
+		}
+		t.handlers = t.handlers[:n-1]
+	}
+	return false
 }
 
 func (t *errHandlers) findFinally(upto int) int {
